@@ -323,52 +323,78 @@ func builders() []builder {
 			})
 		}},
 		{"jwt", func(rt *rapid.T) (string, []op) {
-			kind := rapid.SampledFrom([]string{"HS256", "ES256", "RawHS256"}).Draw(rt, "jwtalg")
-			iss := "issuer"
-			exp := fixedNow().Add(time.Hour)
-			raw := tk.Must(jwt.NewRawJWT(&jwt.RawJWTOptions{Issuer: &iss, ExpiresAt: &exp}))
-			val := tk.Must(jwt.NewValidator(&jwt.ValidatorOpts{ExpectedIssuer: &iss, FixedNow: fixedNow()}))
-			check := func(v *jwt.VerifiedJWT, err error) error {
-				if err != nil {
-					return err
+			// One MAC primitive and one signer/verifier pair (any JWT key type and kid strategy of the
+			// generator), used at once, each with two independently drawn tokens that differ in type
+			// header, subject and audience (the token encoder is shared package code: different headers
+			// must be in flight together; second input set and the second primitive added after seeded
+			// change C18d).
+			mi := keys.DrawUsable(rt, "jwtmac", keys.JWTMAC)
+			si := keys.DrawUsable(rt, "jwtsig", keys.JWTSignature)
+			m := tk.Must(jwt.NewMAC(tk.Must(tk.HandleFromKey(mi.Key))))
+			sh := tk.Must(tk.HandleFromKey(si.Key))
+			sg := tk.Must(jwt.NewSigner(sh))
+			vf := tk.Must(jwt.NewVerifier(tk.Must(sh.Public())))
+			callCap = 64
+			desc := "JWT " + mi.Desc + " + " + si.Desc
+			return desc, twice(func(tag string) []op {
+				iss := "issuer-" + tag
+				sub := rapid.StringMatching(`[a-z]{0,8}`).Draw(rt, "subject")
+				exp := fixedNow().Add(time.Hour)
+				opts := &jwt.RawJWTOptions{Issuer: &iss, Subject: &sub, ExpiresAt: &exp}
+				vopts := &jwt.ValidatorOpts{ExpectedIssuer: &iss, FixedNow: fixedNow()}
+				var typ *string
+				switch rapid.IntRange(0, 2).Draw(rt, "typ") {
+				case 1:
+					t := "JWT"
+					typ = &t
+				case 2:
+					t := rapid.StringMatching(`[a-z+]{1,8}`).Draw(rt, "typvalue")
+					typ = &t
 				}
-				if got, err := v.Issuer(); err != nil || got != iss {
-					return fmt.Errorf("issuer %q, %v", got, err)
+				opts.TypeHeader, vopts.ExpectedTypeHeader = typ, typ
+				raw := tk.Must(jwt.NewRawJWT(opts))
+				val := tk.Must(jwt.NewValidator(vopts))
+				check := func(v *jwt.VerifiedJWT, err error) error {
+					if err != nil {
+						return err
+					}
+					if got, err := v.Issuer(); err != nil || got != iss {
+						return fmt.Errorf("issuer %q, %v", got, err)
+					}
+					if got, err := v.Subject(); err != nil || got != sub {
+						return fmt.Errorf("subject %q, %v", got, err)
+					}
+					if v.HasTypeHeader() != (typ != nil) {
+						return fmt.Errorf("type header present = %v, the token was made with %v", v.HasTypeHeader(), typ != nil)
+					}
+					if typ != nil {
+						if got, err := v.TypeHeader(); err != nil || got != *typ {
+							return fmt.Errorf("type header %q, %v; the token was made with %q", got, err, *typ)
+						}
+					}
+					return nil
 				}
-				return nil
-			}
-			if kind == "ES256" {
-				h := tk.Must(keyset.NewHandle(jwt.ES256Template()))
-				s := tk.Must(jwt.NewSigner(h))
-				v := tk.Must(jwt.NewVerifier(tk.Must(h.Public())))
-				tok := tk.Must(s.SignAndEncode(raw))
-				return "JWT ES256", []op{
+				macTok := tk.Must(m.ComputeMACAndEncode(raw))
+				sigTok := tk.Must(sg.SignAndEncode(raw))
+				return []op{
+					{"ComputeMACAndEncode", func() error {
+						t, err := m.ComputeMACAndEncode(raw)
+						if err != nil || t != macTok {
+							return fmt.Errorf("token %q differs from the sequential result %q: %v", t, macTok, err)
+						}
+						return nil
+					}},
+					{"VerifyMACAndDecode", func() error { return check(m.VerifyMACAndDecode(macTok, val)) }},
 					{"SignAndEncode+VerifyAndDecode", func() error {
-						t, err := s.SignAndEncode(raw)
+						t, err := sg.SignAndEncode(raw)
 						if err != nil {
 							return err
 						}
-						return check(v.VerifyAndDecode(t, val))
+						return check(vf.VerifyAndDecode(t, val))
 					}},
-					{"VerifyAndDecode", func() error { return check(v.VerifyAndDecode(tok, val)) }},
+					{"VerifyAndDecode", func() error { return check(vf.VerifyAndDecode(sigTok, val)) }},
 				}
-			}
-			kt := jwt.HS256Template()
-			if kind == "RawHS256" {
-				kt = jwt.RawHS256Template()
-			}
-			m := tk.Must(jwt.NewMAC(tk.Must(keyset.NewHandle(kt))))
-			tok := tk.Must(m.ComputeMACAndEncode(raw))
-			return "JWT " + kind, []op{
-				{"ComputeMACAndEncode", func() error {
-					t, err := m.ComputeMACAndEncode(raw)
-					if err != nil || t != tok {
-						return fmt.Errorf("token differs: %v", err)
-					}
-					return nil
-				}},
-				{"VerifyMACAndDecode", func() error { return check(m.VerifyMACAndDecode(tok, val)) }},
-			}
+			})
 		}},
 		{"derive", func(rt *rapid.T) (string, []op) {
 			derived := rapid.SampledFrom([]*tinkpb.KeyTemplate{aead.AES128GCMKeyTemplate(), mac.HMACSHA256Tag128KeyTemplate(), signature.ED25519KeyTemplate(), daead.AESSIVKeyTemplate()}).Draw(rt, "derived")
